@@ -45,6 +45,11 @@ impl RegistrationToken {
     pub(crate) fn new(inner: TokenInner) -> Self {
         Self { inner }
     }
+
+    #[cfg(calloop_verif)]
+    pub(crate) fn verif_inner(&self) -> TokenInner {
+        self.inner
+    }
 }
 
 pub(crate) struct LoopInner<'l, Data> {
@@ -325,6 +330,26 @@ impl<'l, Data> LoopHandle<'l, Data> {
             inner: Rc::downgrade(&self.inner),
         }
     }
+
+    /// Read-only statistics for the verification machinery.
+    #[cfg(calloop_verif)]
+    pub fn verif_stats(&self) -> crate::verif::Stats {
+        let (slots, occupied_slots) = self.inner.sources.borrow().verif_counts();
+        let lifecycle = self.inner.sources_with_additional_lifecycle_events.borrow();
+        let mut distinct: Vec<usize> = lifecycle.values.iter().map(|t| t.verif_key()).collect();
+        distinct.sort_unstable();
+        distinct.dedup();
+        let pending = self.inner.pending_action.get();
+        crate::verif::Stats {
+            slots,
+            occupied_slots,
+            lifecycle_len: lifecycle.values.len(),
+            lifecycle_distinct: distinct.len(),
+            timer_heap_len: self.inner.poll.borrow().timers.borrow().verif_len(),
+            idles_len: self.inner.idles.borrow().len(),
+            pending_action_is_continue: pending == PostAction::Continue,
+        }
+    }
 }
 
 impl<Data> Debug for WeakLoopHandle<'_, Data> {
@@ -440,6 +465,8 @@ impl<'l, Data> EventLoop<'l, Data> {
         mut timeout: Option<Duration>,
         data: &mut Data,
     ) -> crate::Result<()> {
+        #[cfg(calloop_verif)]
+        use crate::verif::Clock as Instant;
         let now = Instant::now();
         {
             let mut extra_lifecycle_sources = self
@@ -523,6 +550,8 @@ impl<'l, Data> EventLoop<'l, Data> {
                 .and_then(|entry| entry.source.clone());
 
             if let Some(disp) = opt_disp {
+                #[cfg(calloop_verif)]
+                let _verif_scope = crate::verif::EventScope::new(event.token.verif_key());
                 trace!(source = reg_token.get_id(), "Dispatching events for source");
                 let mut ret = disp.process_events(event.readiness, event.token, data)?;
 
@@ -665,9 +694,13 @@ impl<'l, Data> EventLoop<'l, Data> {
     {
         let timeout = timeout.into();
         self.signals.stop.store(false, Ordering::Release);
+        #[cfg(calloop_verif)]
+        crate::verif::point(crate::verif::Site::RunCheckStop);
         while !self.signals.stop.load(Ordering::Acquire) {
             self.dispatch(timeout, data)?;
             cb(data);
+            #[cfg(calloop_verif)]
+            crate::verif::point(crate::verif::Site::RunIterDone);
         }
         Ok(())
     }
@@ -693,14 +726,22 @@ impl<'l, Data> EventLoop<'l, Data> {
 
         impl Wake for EventLoopWaker {
             fn wake(self: Arc<Self>) {
+                #[cfg(calloop_verif)]
+                crate::verif::point(crate::verif::Site::BlockOnWake);
                 // Set the waker.
                 self.0.signal.future_ready.store(true, Ordering::Release);
+                #[cfg(calloop_verif)]
+                crate::verif::point(crate::verif::Site::BlockOnWakeStored);
                 self.0.notifier.notify().ok();
             }
 
             fn wake_by_ref(self: &Arc<Self>) {
+                #[cfg(calloop_verif)]
+                crate::verif::point(crate::verif::Site::BlockOnWake);
                 // Set the waker.
                 self.0.signal.future_ready.store(true, Ordering::Release);
+                #[cfg(calloop_verif)]
+                crate::verif::point(crate::verif::Site::BlockOnWakeStored);
                 self.0.notifier.notify().ok();
             }
         }
@@ -724,6 +765,8 @@ impl<'l, Data> EventLoop<'l, Data> {
 
         while !self.signals.stop.load(Ordering::Acquire) {
             // If the future is ready to be polled, poll it.
+            #[cfg(calloop_verif)]
+            crate::verif::point(crate::verif::Site::BlockOnSwap);
             if self.signals.future_ready.swap(false, Ordering::AcqRel) {
                 // Poll the future and break the loop if it's ready.
                 if let Poll::Ready(result) = future.as_mut().poll(&mut context) {
@@ -836,6 +879,8 @@ impl LoopSignal {
     ///
     /// This is only useful if you are using the `EventLoop::run()` method.
     pub fn stop(&self) {
+        #[cfg(calloop_verif)]
+        crate::verif::point(crate::verif::Site::Stop);
         self.signal.stop.store(true, Ordering::Release);
     }
 
